@@ -335,6 +335,7 @@ func (c cfgSub) cpy(ctx context) value {
 	fields := &fields{}
 
 	for name, f := range dict {
+		verifKeyOrder("cfgSub.cpy", name)
 		ctx := f.Context()
 		v := f.cpy(context{field: ctx.field, parent: newC})
 		fields.set(name, v)
@@ -380,6 +381,7 @@ func (c cfgSub) reify(opts *options) (interface{}, error) {
 	case len(fields) > 0 && len(arr) == 0:
 		m := make(map[string]interface{})
 		for k, v := range fields {
+			verifKeyOrder("cfgSub.reify", k)
 			opts.activeFields = newFieldSet(parentFields)
 			var err error
 			if m[k], err = v.reify(opts); err != nil {
@@ -400,6 +402,7 @@ func (c cfgSub) reify(opts *options) (interface{}, error) {
 	default:
 		m := make(map[string]interface{})
 		for k, v := range fields {
+			verifKeyOrder("cfgSub.reify", k)
 			opts.activeFields = newFieldSet(parentFields)
 			var err error
 			if m[k], err = v.reify(opts); err != nil {
@@ -500,6 +503,7 @@ func (d *cfgDynamic) withValue(err *error, opts *options, fn func(value)) {
 }
 
 func (d *cfgDynamic) getValue(opts *options) (value, error) {
+	verifYield("cfgDynamic.getValue")
 	return opts.parsed.cachedValue(d.id, func() (value, error) {
 		return d.dyn.getValue(&d.cfgPrimitive, opts)
 	})
